@@ -13,6 +13,8 @@ from .engine import State, Obligation, truth, coerce, exc_is
 from .symexec import Ctx, Evaluator, read_ref
 from .execs import Executor, Outcome, feasible
 from .contracts import find_function, ContractError, REGISTRY
+from . import prims as _prims   # noqa: F401
+from . import ghost as _ghost   # noqa: F401  (registers process / scratch primitives)
 
 Z3_TIMEOUT_MS = int(os.environ.get('VERIF_Z3_TIMEOUT_MS', '10000'))
 CVC5_TIMEOUT_MS = int(os.environ.get('VERIF_CVC5_TIMEOUT_MS', '10000'))
@@ -78,9 +80,17 @@ def generate(c, registry=REGISTRY):
         if p not in params and p != 'self':
             raise ContractError(f"{c.qualname}: contract names parameter {p} which the function "
                                 f"no longer has (contract out of date)")
+    # ghost variables declared by the contract: name -> type (start empty / zero)
+    for gname, gty in (c.ghost.get('vars') or {}).items():
+        gt = T.parse_type(gty) if isinstance(gty, str) else gty
+        from .values import empty_set, empty_seq, empty_dict, const_int
+        init = {'set': empty_set, 'list': empty_seq, 'dict': empty_dict}.get(gt[0])
+        state.bind(gname, init(gt) if init else const_int(0))
     ctx.entry = state.copy()
     ctx.entry.pc = state.pc
     for text, expr in c.parsed('requires'):
+        state.assume(spec_eval(ctx, ev, state, expr))
+    for text, expr in c.parsed('env_assumes'):
         state.assume(spec_eval(ctx, ev, state, expr))
     ctx.entry = state.copy()
     ctx.requires_pc = list(state.pc)
@@ -99,6 +109,9 @@ def generate(c, registry=REGISTRY):
             o = Outcome('return', o.state, value=NONEVAL)
         if o.kind in ('break', 'continue'):
             raise Unsupported("break/continue outside loop")
+        if o.kind == 'raise' and lenient and c.unexpected_exceptions == 'allowed' \
+                and not c.raises:
+            continue
         if not feasible(o.state):
             continue
         n_paths += 1
